@@ -500,3 +500,123 @@ def run_c13(cfg: GCfg, c: Ctx) -> Any:
     if cfg.twin:
         c.check(False, "reachability twin: the end of the harness is reachable", prop="TWIN")
     return {"case": "ok", **data}
+
+
+# ------------------------------------------------------------------------------------------------ C13: build validation
+BUILD_ROUTES = ("positional", "keyword", "flag", "indexed", "indexed-flag", "unpacked", "operator", "nested-positional",
+                "nested-flag-with-input", "nested-flag-without-input", "nested-inner-flag")
+
+
+@watchdog(lambda cfg: "C13")
+def run_c13_build(cfg: GCfg, c: Ctx) -> Any:
+    """Every way a node can come to depend on another one: a non-debug consumer of a debug producer is refused at build
+    time; what is accepted gives the same production values with the flag on and off."""
+    from tawazi import Resource, cfg as twz_cfg, dag, xn
+    from tawazi.errors import TawaziBaseException
+
+    cnt = Counter()
+    p_debug = bool(c.choose(2, "producer_debug"))
+    q_debug = bool(c.choose(2, "consumer_debug"))
+    route = BUILD_ROUTES[c.choose(len(BUILD_ROUTES), "route")]
+    v0, v1 = SymVal(vapp("p_0", [])), SymVal(vapp("p_1", []))
+
+    def p_fn():  # type: ignore[no-untyped-def]
+        cnt.hit("p")
+        return (v0, v1)
+
+    p_fn.__name__ = p_fn.__qualname__ = "p"
+    unpack = {"unpack_to": 2} if route == "unpacked" else {}
+    p = xn(p_fn, debug=p_debug, resource=Resource.main_thread, **unpack)
+    q = xn(term_fn("q", cnt), debug=q_debug, resource=Resource.main_thread)
+    w = xn(term_fn("w", cnt), resource=Resource.main_thread)  # a production node that never depends on p
+
+    def sub1(a):  # type: ignore[no-untyped-def]
+        return q(a)
+
+    def sub0():  # type: ignore[no-untyped-def]
+        return q()
+
+    def subf(f):  # type: ignore[no-untyped-def]
+        return q(twz_active=f[0])
+
+    # (nested DAGs are built before the outer description starts: the build lock is not re-entrant)
+    nested = {"nested-positional": sub1, "nested-flag-with-input": sub1, "nested-flag-without-input": sub0, "nested-inner-flag": subf}
+    inner = None
+    if route in nested:
+        try:
+            inner = dag(nested[route])
+        except SXControl:
+            raise
+        except TawaziBaseException as e:
+            return {"case": "inner DAG refused on its own", "error": repr(e)}
+
+    def pipe():  # type: ignore[no-untyped-def]
+        r = p()
+        k = w()
+        if route == "positional":
+            o = q(r)
+        elif route == "keyword":
+            o = q(kw=r)
+        elif route == "flag":
+            o = q(twz_active=r)
+        elif route == "indexed":
+            o = q(r[1])
+        elif route == "indexed-flag":
+            o = q(twz_active=r[0])
+        elif route == "unpacked":
+            a, b = r
+            o = q(b)
+        elif route == "operator":
+            o = q(r == 3)
+        elif route == "nested-positional":
+            o = inner(r)
+        elif route == "nested-flag-with-input":
+            o = inner(k, twz_active=r)
+        elif route == "nested-flag-without-input":
+            o = inner(twz_active=r)
+        else:
+            o = inner(r)
+        return k, o
+
+    data: Dict[str, Any] = {"route": route, "producer_debug": p_debug, "consumer_debug": q_debug}
+    built = True
+    try:
+        d = dag(pipe)
+    except SXControl:
+        raise
+    except TawaziBaseException:
+        built = False
+    # an operator applied to a node result is a (non-debug) node of its own
+    invalid = p_debug and (not q_debug or route == "operator")
+    if invalid:
+        c.check(not built, "a DAG in which a non-debug node depends on a debug node (%s) was accepted" % route, prop="C13", data=data)
+        c.cover("w_invalid_rejected")
+        return {"case": "rejected", **data}
+    if not built and p_debug and route in nested:
+        # the argument / flag of a nested DAG becomes an internal non-debug input node: the library may refuse a debug
+        # producer there even for a debug consumer (the property only demands that the invalid placements are refused)
+        c.cover("w_conservative_refusal")
+        return {"case": "refused (conservative)", **data}
+    c.check(built, "valid debug placement (%s) rejected" % route, prop="C13", data=data)
+    outs = {}
+    saved = twz_cfg.RUN_DEBUG_NODES
+    for run_dbg in (False, True):
+        cnt.reset()
+        twz_cfg.RUN_DEBUG_NODES = run_dbg
+        try:
+            outs[run_dbg] = d()
+        finally:
+            twz_cfg.RUN_DEBUG_NODES = saved
+        ran = cnt.entered()
+        dbg_nodes = {n for n, f in (("p", p_debug), ("q", q_debug)) if f}
+        if not run_dbg:
+            c.check(not (ran & dbg_nodes), "debug nodes %s executed although RUN_DEBUG_NODES is off" % sorted(ran & dbg_nodes), prop="C13", data=data)
+        c.check("w" in ran and cnt.n["w"] == 1, "production node w did not run exactly once", prop="C13", data=data)
+    c.check(veq(outs[False][0], outs[True][0]), "the value of a production node depends on the debug setting", prop="C13", data=data)
+    if not q_debug:
+        c.check(veq(outs[False][1], outs[True][1]), "the value of a production node depends on the debug setting", prop="C13", data=data)
+    c.cover("w_valid_accepted")
+    c.cover("states", hash((route, p_debug, q_debug)))
+    if cfg.twin:
+        c.check(False, "reachability twin: the end of the harness is reachable", prop="TWIN")
+    return {"case": "ok", **data}
